@@ -54,7 +54,7 @@ DFS_CMDS = [
 
 
 def offsets(r, L, tier):
-    if L <= 512:
+    if L <= 512 or (tier == 'thorough' and L <= 5000):
         o = set(range(0, L + 2))
     else:
         o = set(range(0, 65 if tier == 'thorough' else 9))
@@ -336,10 +336,10 @@ def main(tier, seed, scale=1.0):
         for mode in ('fsize', 'pipe', 'devfull'):
             for variant in (['rel'] if q and ci % 3 else ['rel', 'san']):
                 specs.append((seed, 'dfs', ci, mode, variant, tier))
-    for ci in range(12 if q else 60):
+    for ci in range(12 if q else 240):
         for mode in ('fsize', 'pipe', 'devfull'):
             specs.append((seed, 'basic', ci, mode, 'rel' if ci % 2 else 'san', tier))
-    for i in range(8 if q else 60):
+    for i in range(8 if q else 300):
         for kind in ('fsize', 'obstacle', 'nodest'):
             specs.append((seed, 'X', kind, i, 'rel' if i % 2 else 'san', tier))
     if scale < 1:
